@@ -10,6 +10,7 @@
 From Coq Require Import String List Arith Bool ZArith.
 Import ListNotations.
 From NP Require Import Base Values Arrow Abs Kernels Logical ExtArray Codec Steps Frame Bridge Proofs_Pack Proofs_Regroup Proofs_Bridge.
+From NP Require Import Preflight Proofs_Preflight.
 
 Theorem C07_query_nested : forall rows keep,
   m_query_nested rows (map keep (m_flat rows)) = Ok (spec_filter_rows keep rows).
@@ -47,6 +48,35 @@ Theorem C07_starts_from_the_C03_views : forall p, inv_b p = true ->
   (forall k, k < length (lcols L) -> flat_field k (nrows_of L) = nth k (spec_flat L) []).
 Proof. exact frame_views_are_c03_views. Qed.
 Print Assumptions C07_starts_from_the_C03_views.
+
+(* which layer a query belongs to (Preflight.v mirrors _subexprs_by_nest / extract_nest_names and the routing of query):
+   for EVERY expression tree - binary operators, unary ~ and -, function calls, any depth - the preflight sees exactly
+   the layers occurring in it; the query is refused exactly when two different layers occur, filters inside nest k
+   exactly when every term belongs to nest k, selects whole rows exactly when no nested field occurs; the preflight of
+   the unrepaired code (descending through binary operators only) let a mixed condition pass *)
+Theorem C07_preflight_sees_every_layer : forall e l, In l (q_keys e) <-> occurs l e = true.
+Proof. exact keys_are_the_layers. Qed.
+Print Assumptions C07_preflight_sees_every_layer.
+
+Theorem C07_mixed_layers_refused : forall e,
+  m_query_route e = QRefuse <-> exists a b, a <> b /\ occurs a e = true /\ occurs b e = true.
+Proof. exact route_refuse. Qed.
+Print Assumptions C07_mixed_layers_refused.
+
+Theorem C07_nested_route : forall e k,
+  m_query_route e = QNest k <-> (k <> 0 /\ occurs k e = true /\ forall l, occurs l e = true -> l = k).
+Proof. exact route_nest. Qed.
+Print Assumptions C07_nested_route.
+
+Theorem C07_base_route : forall e, m_query_route e = QBase <-> (forall l, occurs l e = true -> l = 0).
+Proof. exact route_base. Qed.
+Print Assumptions C07_base_route.
+
+Theorem C07_unrepaired_preflight_refuted :
+  let e := QOp KBinary [QOp KUnary [QOp KBinary [QField 1; QConst]]; QOp KBinary [QField 2; QConst]] in
+  m_query_route e = QRefuse /\ q_keys_unrepaired e = [2].
+Proof. exact unrepaired_preflight_refuted. Qed.
+Print Assumptions C07_unrepaired_preflight_refuted.
 
 Example C07_nonvacuous :
   m_query_nested [Some [[VInt 1]; [VInt 5]; [VInt 2]]; None; Some []; Some [[VInt 9]]; Some [[VInt 0]]]
